@@ -377,7 +377,7 @@ class Node(object):
         """
         Decides if priority preemption is needed, finds the individual to preempt, and preempt them.
         """
-        in_service = [s.cust for s in self.servers if s.busy and not s.cust.is_blocked]
+        in_service = [s.cust for s in self.servers if s.busy and not s.offduty and not s.cust.is_blocked]
         if self.priority_preempt != False and len(in_service) > 0:
             least_priority = max(cust.priority_class for cust in in_service)
             if individual.priority_class < least_priority:
